@@ -541,6 +541,64 @@ static void pair_all(uint64_t& blk)
   }
 }
 
+#ifdef C16_ENUM
+// ---- a plain unscoped enumeration as the non-wrapped operand ---------------------------------------------------------
+// In a plain expression an enumerator of `enum PE { LOW, MID, HIGH }` promotes to int (its values fit), whatever integer
+// type the compiler picked to STORE the enumeration (unsigned int for gcc and clang): -1 < MID is true.
+enum PE
+{
+  PE_LOW,
+  PE_MID,
+  PE_HIGH
+};
+template<class Op, class A, int LW>
+static void enum_case(A a, PE e)
+{
+  if (!defined_plain<Op, A, int>(a, (int)e)) return;
+  A pa = a;
+  {
+    using P = decltype(Op::ap(pa, e));
+    P plain = Op::ap(pa, e);
+    with_opnd<A, LW>(a, CELL_L, [&](auto& l) {
+      g_abort_flag = 0;
+      auto res = Op::ap(l, e);
+      bool ab = g_abort_flag;
+      using W = decltype(res);
+      using Expect = std::conditional_t<Op::kind == K_CMP && LW == 1, rlbox::tainted_boolean_hint, tn<P>>;
+      n_eval++;
+      n_nontriv++;
+      std::string kase = std::string("enum|") + Op::n + "|" + tnm<A>() + "|PE|" + wn[LW] + "|plain|" + vstr(a) + "|" + std::to_string((int)e);
+      std::string sg = std::string("C16 op=") + Op::n + " lhs=" + wn[LW] + "<" + tnm<A>() + "> rhs=plain<unscoped enum>";
+      if constexpr (!std::is_same_v<W, Expect>) viol(sg + " kind=result-type", kase, "wrapped expression has an unexpected C++ type");
+      else {
+        P got = (P)res.UNSAFE_unverified();
+        if (ab) viol(sg + " kind=spurious-abort", kase, "operator aborted");
+        else if (!same_bits(got, plain)) viol(sg + " kind=value", kase, "wrapped result " + vstr(got) + " != plain result " + vstr(plain) + " (an enumerator promotes to int in the plain expression)");
+      }
+    });
+  }
+  // (an enumerator on the LEFT of a wrapped operand is rejected by RLBox at compile time: not offered)
+}
+template<class A>
+static void enum_cases()
+{
+  for (A a : values<A>(true))
+    for (PE e : { PE_LOW, PE_MID, PE_HIGH }) {
+#  if C16_ENUM == 1
+      enum_case<OAdd, A, 0>(a, e); enum_case<OAdd, A, 1>(a, e);
+      enum_case<OSub, A, 0>(a, e); enum_case<OSub, A, 1>(a, e);
+#  else
+      enum_case<OEq, A, 0>(a, e); enum_case<OEq, A, 1>(a, e);
+      enum_case<ONe, A, 0>(a, e); enum_case<ONe, A, 1>(a, e);
+      enum_case<OLt, A, 0>(a, e); enum_case<OLt, A, 1>(a, e);
+      enum_case<OLe, A, 0>(a, e); enum_case<OLe, A, 1>(a, e);
+      enum_case<OGt, A, 0>(a, e); enum_case<OGt, A, 1>(a, e);
+      enum_case<OGe, A, 0>(a, e); enum_case<OGe, A, 1>(a, e);
+#  endif
+    }
+}
+#endif
+
 int main(int argc, char** argv)
 {
   parse(argc, argv);
@@ -554,6 +612,20 @@ int main(int argc, char** argv)
     g_rp = split(g_args.replay, '|');
     if (g_rp.size() < 8) return 2;
   }
+#ifdef C16_ENUM
+  if ((!g_replay && g_args.part == 0) || (g_replay && (g_rp[0] == "enum" || g_rp[0] == "enumL"))) {
+    enum_cases<signed char>();
+    enum_cases<short>();
+    enum_cases<int>();
+    enum_cases<long>();
+    enum_cases<unsigned>();
+    enum_cases<long long>();
+  }
+  stat("evaluations", n_eval);
+  stat("nontrivial", n_nontriv);
+  finish();
+  return 0;
+#endif
   using A = C16_A;
   uint64_t blk = 0;
   for_types(tl<C16_BS>{}, [&](auto* bp) {
